@@ -25,6 +25,7 @@ attribute [api_eval] Exchange.run Exchange.request Exchange.raise checkCc rerais
 
 attribute [api_eval]
   reqChassisControl_eq rspChassisControl_eq reqColdReset_eq rspColdReset_eq reqFruControl_eq rspFruControl_eq
+  reqGetComponentProperties_eq rspGetComponentProperties_eq
   reqGetChassisStatus_eq rspGetChassisStatus_eq reqGetDeviceGuid_eq rspGetDeviceGuid_eq reqGetDeviceId_eq rspGetDeviceId_eq
   reqGetEventReceiver_eq rspGetEventReceiver_eq reqGetFanLevel_eq rspGetFanLevel_eq
   reqGetFanSpeedProperties_eq rspGetFanSpeedProperties_eq reqGetFruLedState_eq rspGetFruLedState_eq
@@ -147,6 +148,8 @@ structure Chassis.Wf (c : Chassis) : Prop where
 
 structure Sensor.Wf (x : Sensor) : Prop where
   states1 : ∀ a, x.states1 = some a → a < 256
+  /-- the second state byte carries the seven states 14..8 -/
+  states2 : ∀ b, x.states2 = some b → b < 128
   thresholds : ∀ i, x.thresholds.getD i 0 < 256
 
 /-- LED function bytes 01h..FAh are the blinking off-durations (PICMG 3.0 table 3-29/3-30) -/
@@ -162,6 +165,9 @@ structure Port.Wf (p : Port) : Prop where
   flags : p.flags < 16
   linkType : p.linkType < 256
   ext : p.ext < 16
+
+/-- an HPM.1 component description: at most the 12 bytes of the field, characters are non-NUL bytes -/
+def DescrWf (d : List Nat) : Prop := d.length ≤ 12 ∧ ∀ c ∈ d, 0 < c ∧ c < 256
 
 /-- the two LAN parameters the API decodes have their defined sizes; data are bytes -/
 def lanWf (k : Nat) (d : List Nat) : Prop :=
@@ -192,6 +198,7 @@ structure BmcState.Wf (s : BmcState) : Prop where
   hpmSelftest2 : s.hpm.selftest2 < 256
   hpmRollback : s.hpm.rollbackStatus < 256
   hpmRollbackEstimate : ∀ e, s.hpm.rollbackEstimate = some e → e < 256
+  hpmDescr : s.hpm.compDescr.All fun _ d => DescrWf d
 
 /-! ### argument ranges -/
 
@@ -239,11 +246,14 @@ def Call.InRange : Call → Prop
   | .fruLockNamed idx fru => idx < 4 ∧ fru < 256
   | .setPortState iface ch p =>
     iface < 4 ∧ ch < 64 ∧ p.hasLink = true ∧ p.Wf ∧ p.grouping < 256 ∧ p.state < 256
+  | .setPortStateType8 iface ch p =>
+    iface < 4 ∧ ch < 64 ∧ p.hasLink = true ∧ p.Wf ∧ p.grouping < 256 ∧ p.state < 256
   | .getPortState ch iface => ch < 64 ∧ iface < 4
   | .getPowerChannelStatus start => start < 256
   | .sendChannelPower ch _ lim pri bak => ch < 256 ∧ lim < 256 ∧ pri < 256 ∧ bak < 256
   | .setSignalingClass iface ch cls => iface < 4 ∧ ch < 64 ∧ cls < 16
   | .getSignalingClass iface ch => iface < 4 ∧ ch < 64
+  | .getComponentDescription id => id < 256
   | _ => True
 
 /-! ### how an oracle value looks through the Python API -/
